@@ -554,4 +554,7 @@ def run(ctx, report):
     from rules import c07
     # "refused with the size error": a wrapper must pass the refusal on, not turn it into a success
     c07.run(ctx, Only(report, {"ONCE": "REPORTS"}, keys=lambda r, k: k.endswith("swallows-error")))
+    # "refused exactly when the result exceeds the limit": no back-end's sign_v4 refuses on a size estimate of its own
+    from rules import c11
+    c11._own_run(ctx, Only(report, {"ROLE": "SIGN-REFUSAL"}, keys=lambda r, k: k.startswith("sign_v4/")))
 
